@@ -142,7 +142,7 @@ TUpdate == /\ IsEvent("update")
            /\ Unch
 
 SurpArgs(o) == [degenerate |-> Ev.a.degenerate, output |-> Ev.a.output, ll |-> Ev.a.ll, tolq |-> Ev.a.tolq, tolzero |-> Ev.a.tolzero, tolneg |-> FALSE,
-                ratios |-> Ev.a.ratios, crit |-> Ev.a.crit, smode |-> Ev.a.smode,
+                ratios |-> Ev.a.ratios, crit |-> Ev.a.crit, smode |-> IF Has(Ev.a, "smode") THEN Ev.a.smode ELSE 0,
                 sorted |-> IF Len(Ev.a.ratios) = Cardinality(G(o).pts) /\ ~IsEmpty(G(o)) THEN StOf(o).pts ELSE <<>>]
 
 TSurp == /\ IsEvent("surp")
